@@ -443,11 +443,11 @@ def write_gen_rs(infos):
 
 
 def rlib_paths():
-    deps = os.path.join(C.CACHE, "target", HARNESS, "debug", "deps")
-    libs = glob.glob(os.path.join(deps, "libunimock-*.rlib"))
-    if not libs:
-        raise C.CheckFailure("no built unimock rlib to probe against", deps)
-    return deps, max(libs, key=os.path.getmtime)
+    from ..rustc_sweep import find_rlib
+    deps, rlib = find_rlib(os.path.join(C.CACHE, "target", HARNESS))
+    if rlib is None:
+        raise C.CheckFailure("no built unimock rlib (of the repository under test) to probe against", deps)
+    return deps, rlib
 
 
 def probe_programs(progs):
